@@ -652,7 +652,10 @@ mod detail {
             |bin_op_idx: usize| match (&nodes[bin_op_idx].kind, &nodes[bin_op_idx + 1].kind) {
                 (FlatNodeKind::Num(_), FlatNodeKind::Num(_))
                     if ops[bin_op_idx].bin_op.op.is_commutative
-                        && overtakes_only_same_op(bin_op_idx) =>
+                        && overtakes_only_same_op(bin_op_idx)
+                        // an operator that carries the unary operator of its parenthesized
+                        // group has to remain the last one applied in that group
+                        && ops[bin_op_idx].unary_op.len() == 0 =>
                 {
                     let prio_inc = 5;
                     &ops[bin_op_idx].bin_op.op.prio * 10 + prio_inc
